@@ -174,6 +174,12 @@ def run(tier: str) -> int:
         profiles.random_profile('rnd', False, True, 20, 100, ORACLES, actions_mode='throw',
                                 inputs=profiles.inputs_exhaustive(4, 6, cap_q=150, cap_t=900), per_tu=2, configs=cfg),
         profiles.control_profile('cc', 8, 50, ORACLES, actions_mode='throw', per_tu=2),
+        # the same runs through coverage<>(): state_control<> around the logging control (with and without unwind()) must forward
+        # exactly the hooks of a plain parse, for visible rules only
+        # (no apply<> / if_apply<> rules here: their action classes are called with every state, also the one state_control<> appends)
+        profiles.random_profile('cov', False, True, 8, 50, ORACLES, actions_mode='throw', racts='off',
+                                inputs=profiles.inputs_exhaustive(4, 6, cap_q=120, cap_t=700), per_tu=2,
+                                configs=lambda g, root, tier: [Config(root, 1, 'o', 'lf_crlf', 0, uw, 0, 0, 0, 1) for uw in (1, 0)]),   # parse() defaults: apply_mode::action, rewind_mode::optional
     ]
     return engine.run_engine('C08', tier, ['PegtlVerif.Props.C08'], ps,
                              extra=lambda v, cov, rng: coverage_part(v, cov, rng, tier))
